@@ -354,6 +354,54 @@ def rule_K7(ctx):
     ctx.ok("K7", "%d store(s) into module-level tables inspected" % n, "phyclone")
 
 
+_CONTAINER_MUTATORS = {"append", "extend", "insert", "remove", "pop", "clear", "sort", "reverse", "add", "discard", "update", "setdefault", "popitem", "appendleft", "extendleft", "fill"}
+_MUTABLE_CTORS = {"list", "dict", "set", "defaultdict", "OrderedDict", "deque", "Counter", "bytearray", "zeros", "ones", "empty", "full", "array"}
+
+
+def rule_K8(ctx):
+    """A default argument is evaluated once, when the function is defined.  A mutable default ([] / {} / set() / an
+    array) that the function fills, or hands out (returns, yields, stores), is state that survives from one call to
+    the next: the second chain of a process, the second move of a sweep, sees what the first one left there."""
+    prog = ctx.prog
+    ctx.rule("K8", "no state survives between calls through a mutable default argument (a default container that the function fills or hands out)", 1)
+    n = 0
+    for fi in prog.functions.values():
+        a = fi.node.args
+        pos = a.posonlyargs + a.args
+        pairs = list(zip(pos[len(pos) - len(a.defaults):], a.defaults)) + [(p_, d) for p_, d in zip(a.kwonlyargs, a.kw_defaults) if d is not None]
+        for p_, d in pairs:
+            mutable = isinstance(d, (ast.List, ast.Dict, ast.Set, ast.ListComp, ast.DictComp, ast.SetComp)) or (isinstance(d, ast.Call) and call_name(d).split(".")[-1] in _MUTABLE_CTORS)
+            if not mutable:
+                continue
+            n += 1
+            name = p_.arg
+            # names that denote the same object: plain `x = name` aliases
+            alias = {name}
+            for st_ in ast.walk(fi.node):
+                if isinstance(st_, ast.Assign) and isinstance(st_.value, ast.Name) and st_.value.id in alias:
+                    alias |= {t.id for t in st_.targets if isinstance(t, ast.Name)}
+            how = None
+            rebinds = [st_ for st_ in fi.node.body if isinstance(st_, ast.Assign) and any(isinstance(t, ast.Name) and t.id == name for t in st_.targets) and not any(isinstance(x, ast.Name) and x.id == name for x in ast.walk(st_.value))]
+            if rebinds and rebinds[0] is fi.node.body[0]:
+                continue  # rebound to a fresh value before anything else happens
+            for x in ast.walk(fi.node):
+                if isinstance(x, ast.Call) and isinstance(x.func, ast.Attribute) and x.func.attr in _CONTAINER_MUTATORS and isinstance(x.func.value, ast.Name) and x.func.value.id in alias:
+                    how = how or (x, "fills it (%s)" % u(x)[:50])
+                if isinstance(x, (ast.Assign, ast.AugAssign)):
+                    for t in (x.targets if isinstance(x, ast.Assign) else [x.target]):
+                        if isinstance(t, ast.Subscript) and isinstance(t.value, ast.Name) and t.value.id in alias:
+                            how = how or (x, "stores into it (%s)" % u(x)[:50])
+                        if isinstance(x, ast.AugAssign) and isinstance(t, ast.Name) and t.id in alias:
+                            how = how or (x, "extends it in place (%s)" % u(x)[:50])
+                        if isinstance(t, ast.Attribute) and isinstance(x, ast.Assign) and isinstance(x.value, ast.Name) and x.value.id in alias:
+                            how = how or (x, "stores it in an object (%s)" % u(x)[:50])
+                if isinstance(x, (ast.Return, ast.Yield)) and x.value is not None and any(isinstance(y, ast.Name) and y.id in alias for y in ([x.value] + (list(x.value.elts) if isinstance(x.value, (ast.Tuple, ast.List)) else []))):
+                    how = how or (x, "hands it out (%s)" % u(x)[:50])
+            ctx.check(how is None, "K8", "%s: default of `%s` (%s) is neither filled nor handed out" % (fi.qualname.split("phyclone.")[-1], name, u(d)[:30]), fi.where(how[0]) if how else fi.where(),
+                      "`%s=%s` is created once, at definition time, and %s %s: every call that relies on the default sees what earlier calls left in it" % (name, u(d)[:30], fi.name, how[1] if how else ""), construct=fi.qualname, stmt="mutable default " + name)
+    ctx.ok("K8", "%d mutable default argument(s) inspected in %d functions" % (n, len(prog.functions)), "phyclone")
+
+
 VERIFIED_SYMMETRIC = {"phyclone.tree.utils.compute_log_S", "phyclone.tree.utils._convolve_two_children"}
 
 
@@ -672,6 +720,7 @@ def run(ctx):
     ctx.soft(rule_K5)
     ctx.soft(rule_K6)
     ctx.soft(rule_K7)
+    ctx.soft(rule_K8)
     # a cached proposal / tree holder is served again and again: the trees handed out from it must share nothing
     # mutable with the cached entry (same rule object as C06.M4)
     from . import _premises
@@ -685,6 +734,8 @@ _SA = "phyclone/smc/kernels/semi_adapted.py"
 _FA = "phyclone/smc/kernels/fully_adapted.py"
 _M = "phyclone/utils/math.py"
 SELFTEST = [
+    {"name": "K8-trace-started-in-default-argument", "kind": "break", "rule": "K8", "file": "phyclone/run.py", "old": "def setup_trace(timer, tree, tree_dist):\n    trace = []\n", "new": "def setup_trace(timer, tree, tree_dist, trace=[]):\n"},
+    {"name": "benign-default-container-only-read", "kind": "benign", "file": "phyclone/run.py", "old": "def setup_trace(timer, tree, tree_dist):\n    trace = []\n", "new": "def setup_trace(timer, tree, tree_dist, initial=[]):\n    trace = list(initial)\n"},
     {"name": "K1-alpha-dropped-from-semi-cache", "kind": "break", "rule": "K1", "edits": [
         {"file": _SA, "old": "            self.outlier_proposal_prob,\n            self.tree_dist.prior.alpha,\n        )", "new": "            self.outlier_proposal_prob,\n        )"},
         {"file": _SA, "old": "def _get_cached_semi_proposal_dist(data_point, kernel, parent_particle, outlier_proposal_prob, alpha):", "new": "def _get_cached_semi_proposal_dist(data_point, kernel, parent_particle, outlier_proposal_prob):"}]},
